@@ -72,6 +72,14 @@ Theorem C01_rels : forall blob (E : env blob) (p : phys blob), wf E p -> codec_o
 Proof. exact @c01_rels. Qed.
 Print Assumptions C01_rels.
 
+(** opening and saving the output again reproduces the same members with the same bytes *)
+Theorem C01_idem : forall blob (E : env blob) (p : phys blob),
+  wf E p -> codec_ok E -> env_ok E -> no_default_clash E p ->
+  exists k k2, load E p = Ok k /\ load E (save E k) = Ok k2 /\
+               same_package (save E k2) (save E k).
+Proof. exact @c01_idem. Qed.
+Print Assumptions C01_idem.
+
 (** ---- non-vacuity: a concrete package meeting every hypothesis ---- *)
 
 Example C01_ex_wf : wf wenv ex_deck.
